@@ -57,6 +57,10 @@ def build_msg(m, cut=True):
     t, L = m["text"], m.get("pad_to")
     if L is None:
         return t
+    if isinstance(L, list):
+        # [n, filler]: the text preceded by n copies of a (possibly multi-byte) filler character: messages of megabytes
+        # whose character count and UTF-8 byte count differ
+        return L[1] * L[0] + t
     if len(t.encode("utf8")) > L:
         if not cut:
             return t
@@ -85,7 +89,7 @@ def total(f, what):
 
 def msg_labels(msg):
     n = len(msg.encode("utf8"))
-    out = ["msg-bytes=%s" % ("0" if n == 0 else "1-252" if n < 253 else "253-65535" if n < 65536 else "65536+")]
+    out = ["msg-bytes=%s" % ("0" if n == 0 else "1-252" if n < 253 else "253-65535" if n < 65536 else "65536+" if n < 2**20 else ">=1MiB")]
     if "\n" in msg:
         out.append("multi-line")
     if any(ord(ch) > 127 for ch in msg):
@@ -287,7 +291,9 @@ def free_msgs():
     return st.one_of(
         free_text().map(lambda t: {"text": t, "pad_to": None}),
         st.builds(lambda t, L: {"text": t, "pad_to": L}, free_text(), st.sampled_from(PAD_TARGETS[:10])),
-        st.builds(lambda t, L: {"text": t, "pad_to": L}, st.text(max_size=8), st.sampled_from(PAD_TARGETS)))
+        st.builds(lambda t, L: {"text": t, "pad_to": L}, st.text(max_size=8), st.sampled_from(PAD_TARGETS)),
+        st.builds(lambda t, L: {"text": t, "pad_to": L}, st.text(min_size=1, max_size=8),
+                  st.sampled_from([[600000, "\u00e9"], [400000, "\u20ac"], [1100000, "a"], [300000, "\U0001f600"], [1048576, "b"], [524289, "\u00e9"]])))
 
 
 def other_msgs():
@@ -572,7 +578,7 @@ SUBCHECKS = [
     SubCheck("sign_verify", o_sign_verify, strategy=s_sign_verify, budget=(1500, 60000),
              nontrivial=lambda c, l: "msg-bytes=0" not in l,
              rule="key (boundary+uniform scalar, compressed or not) x network x unicode message (empty, multi-line with any newlines, "
-                  "padded to 252/253/65535/65536... UTF-8 bytes): hash_for_signing == reference magic hash; sign == base64 of "
+                  "padded to 252/253/65535/65536... UTF-8 bytes, or 0.5-1.2 million one- to four-byte characters): hash_for_signing == reference magic hash; sign == base64 of "
                   "(27+recid+4c)||r||s of the reference RFC 6979 signature; verify True for key, public key, address; "
                   "pair_for_message_hash == (d*G, flag); verify False for a near-miss or unrelated other message, another key, the negated "
                   "key, their addresses, the same key's other-compression address, and under a network with a different magic. "
